@@ -468,12 +468,12 @@ package shmipc
 //@   ensures  r1 != nil ==> r0 == nil && (bufferNum == 0 || capPerBuffer == 0 || offsetInMem + 36 + bufferNum * (capPerBuffer + 20) > len(mem))   // fails only when it must
 //@   ensures  r1 == nil ==> r0 != nil && fresh(r0) && bufferNum >= 1 && capPerBuffer >= 1 && listGeom(r0, mem, offsetInMem, bufferNum, capPerBuffer)
 //@   ensures  r1 == nil ==> *r0.size == bufferNum && *r0.cap == bufferNum && *r0.head == 0 && *r0.tail == (bufferNum - 1) * (capPerBuffer + 20) && *r0.capPerBuffer == capPerBuffer
-//@   ensures[C01,C02]  r1 == nil ==> forall k in [0, bufferNum): using(mulMono(k, bufferNum, capPerBuffer + 20)) ==> slotInit(r0.bufferRegion, k, bufferNum, capPerBuffer)
-//@   ensures[C01,C02]  r1 == nil ==> mem8(r0.bufferRegion, (bufferNum - 1) * (capPerBuffer + 20) + 16) == 0
+//@   ensures[OPEN]  r1 == nil ==> forall k in [0, bufferNum): using(mulMono(k, bufferNum, capPerBuffer + 20)) ==> slotInit(r0.bufferRegion, k, bufferNum, capPerBuffer)
+//@   ensures[OPEN]  r1 == nil ==> mem8(r0.bufferRegion, (bufferNum - 1) * (capPerBuffer + 20) + 16) == 0
 //@   loop 0 invariant 0 <= i && i <= bufferNum && current == i * (capPerBuffer + 20) && b != nil
 //@   loop 0 invariant listGeom(b, mem, offsetInMem, bufferNum, capPerBuffer) && offsetInMem + 36 + bufferNum * (capPerBuffer + 20) < 4294967296 && 0 < capPerBuffer
 //@   loop 0 invariant *b.size == bufferNum && *b.cap == bufferNum && *b.head == 0 && *b.tail == (bufferNum - 1) * (capPerBuffer + 20) && *b.capPerBuffer == capPerBuffer
-//@   loop 0 invariant[C01,C02] forall k in [0, i): using(mulMono(k, i, capPerBuffer + 20)) ==> slotInit(b.bufferRegion, k, bufferNum, capPerBuffer)
+//@   loop 0 invariant[OPEN] forall k in [0, i): using(mulMono(k, i, capPerBuffer + 20)) ==> slotInit(b.bufferRegion, k, bufferNum, capPerBuffer)
 //@   loop 0 apply mulMono(i, bufferNum, capPerBuffer + 20)
 //@   loop 0 apply mulStep(i, capPerBuffer + 20)
 //@   loop 0 modifies mem[offsetInMem + 36 : offsetInMem + 36 + bufferNum * (capPerBuffer + 20)]
